@@ -696,8 +696,22 @@ class ParHandler(Handler):
         super().__init__()
         self.lex, self.depth, self.sym_is_open, self.symlen = lexeme, depth, sym_is_open, symlen
         self.consumed, self.split, self.raised = [], 0, False
+        self.alias = {}          # local name -> text it is a snapshot of (valid until the input is consumed)
+
+    def _unalias(self, node):
+        if not self.alias:
+            return node
+        from ..normalise import clone
+
+        class A(ast.NodeTransformer):
+            def visit_Name(s_, n):
+                if isinstance(n.ctx, ast.Load) and n.id in self.alias:
+                    return ast.parse(self.alias[n.id], mode="eval").body
+                return n
+        return ast.fix_missing_locations(A().visit(clone(node)))
 
     def test(self, node):
+        node = self._unalias(node)
         s = norm(node)
         if s in ("len(expr.right) == 0", "not expr.right", "expr.right == ''", "len(expr.right) < 1"):
             return self.lex == "END"
@@ -724,6 +738,13 @@ class ParHandler(Handler):
         return None
 
     def stmt(self, node):
+        if isinstance(node, ast.Assign) and len(node.targets) == 1 and isinstance(node.targets[0], ast.Name) and norm(node.value) in ("expr.right", "len(self.args)", "self.narg"):
+            self.alias[node.targets[0].id] = norm(node.value)       # a snapshot of the remaining input / of a counter
+            return
+        if isinstance(node, ast.Expr) and isinstance(node.value, ast.Call):
+            node = self._unalias(node)
+            if norm(node.value.func).startswith("expr."):
+                self.alias = {k: v for k, v in self.alias.items() if v != "expr.right"}     # the input moves on: snapshots of it are stale
         s = norm(node)
         if isinstance(node, ast.AugAssign) and norm(node.target) == "depth" and isinstance(node.value, ast.Constant):
             self.depth += node.value.value if isinstance(node.op, ast.Add) else -node.value.value
